@@ -132,6 +132,7 @@ def jet(n, env):
     if k in ('bioMin', 'bioMax'):
         a, b = jet(n[1], env), jet(n[2], env)
         assert abs(a.v - b.v) > 1e-3, 'family must stay away from ties'
+        env.setdefault('margins', []).append(abs(a.v - b.v))
         return (a if a.v < b.v else b) if k == 'bioMin' else (a if a.v > b.v else b)
     if k == 'UnaryMinus':
         a = jet(n[1], env)
@@ -234,6 +235,18 @@ def build(n, betas):
                                None if avs is None else {key: build(a, betas) for key, a in avs},
                                build(choice, betas))
     raise AssertionError(k)
+
+
+def betas_in(n, acc):
+    """names of the parameters of a description in order of first appearance"""
+    if isinstance(n, tuple):
+        if len(n) == 2 and n[0] == 'beta':
+            if n[1] not in acc:
+                acc.append(n[1])
+        else:
+            for c in n:
+                betas_in(c, acc)
+    return acc
 
 
 def show(n):
@@ -518,7 +531,8 @@ def family_closed_forms(rng, count, nrows):
 OPERATORS = ['Plus', 'Minus', 'Times', 'Divide', 'Power', 'bioMin', 'bioMax', 'UnaryMinus', 'exp', 'log', 'logzero',
              'sin', 'cos', 'bioNormalCdf', 'PowerConstant[2]', 'PowerConstant[3]', 'PowerConstant[0.5]',
              'PowerConstant[-1]', 'PowerConstant[1]', 'PowerConstant[-2.5]', 'Elem', 'ConditionalSum', 'bioMultSum',
-             'LogLogit', 'LogLogit[av]', 'Power[const-base]', 'Divide[const-num]', 'nested']
+             'LogLogit', 'LogLogit[av]', 'Power[const-base]', 'Divide[const-num]', 'nested', 'PowerConstant[0]',
+             'Divide[zero-num]', 'Divide[unit-den]', 'Times[zero-factor]']
 
 
 def family_operators(rng, count_per_op, nrows):
@@ -529,6 +543,7 @@ def family_operators(rng, count_per_op, nrows):
             k = 2 + (rep + len(op)) % 3
             names = pick_names(rng, k)
             fixed = {'kappa': rnd(rng, 0.5, 1.5), 'Mfix': rnd(rng, 0.2, 0.9)}
+            theta = {nm: rnd(rng, 0.3, 1.2) * rng.choice((1, 1, -1)) for nm in names}
             p = [B(nm) for nm in names]
             q = p[2] if k > 2 else B('kappa')
             r4 = p[3] if k > 3 else B('Mfix')
@@ -559,6 +574,14 @@ def family_operators(rng, count_per_op, nrows):
                 node = ('Power', N(1.7), ('Times', u, N(0.3)))
             elif op == 'Divide[const-num]':
                 node = ('Divide', N(2.0), ('Times', u, v))
+            elif op == 'Divide[zero-num]':
+                # the numerator vanishes at the evaluation point (its derivative does not)
+                node = ('Divide', ('Times', ('Minus', p[0], N(theta[names[0]])), u), v)
+            elif op == 'Divide[unit-den]':
+                # the denominator is exactly one at the evaluation point
+                node = ('Divide', u, ('Plus', ('Times', ('Minus', p[1], N(theta[names[1]])), v), N(1.0)))
+            elif op == 'Times[zero-factor]':
+                node = ('Times', ('Times', ('Minus', p[0], N(theta[names[0]])), u), v)
             else:
                 node = ('log', ('Plus', ('exp', ('Divide', u, v)), ('PowerConstant', ('Times', u, v), 0.5)))
             data = {'x': [rnd(rng, -1.2, 1.2) for _ in range(nrows)],
@@ -566,9 +589,9 @@ def family_operators(rng, count_per_op, nrows):
                     'c1': [float((i + rep) % 2) for i in range(nrows)],
                     'c2': [float((i // 2) % 2) * 2.5 for i in range(nrows)],
                     'one': [1.0] * nrows}
-            theta = {nm: rnd(rng, 0.3, 1.2) * rng.choice((1, 1, -1)) for nm in names}
-            out.append(dict(tag='operator:' + op, node=node, free=names, fixed=fixed, data=data, theta=theta,
-                            analytic=None))
+            used = [nm for nm in betas_in(node, []) if nm in names]            # order of first appearance
+            out.append(dict(tag='operator:' + op, node=node, free=used, fixed=fixed, data=data,
+                            theta={nm: theta[nm] for nm in used}, analytic=None))
     return out
 
 
@@ -612,6 +635,9 @@ class Checker:
                 {c: v[:6] for c, v in case['data'].items()}}
         if extra:
             desc.update(extra)
+        if case.get('_square_of_curved_child'):
+            desc['note'] = ('the formula contains child ** 2 (PowerConstant, exponent 2) over a child with a non-zero '
+                            'Hessian: the engine branch for exponent 2 adds 2*h_child instead of 2*f_child*h_child')
         key = clause + ' | ' + case['tag']
         self.hist[key] = self.hist.get(key, 0) + 1
         if len(self.failures) < 10:
@@ -671,9 +697,12 @@ class Checker:
             cols = list(case['data'])
             rows = [{c: float(case['data'][c][r]) for c in cols} for r in range(len(case['data'][cols[0]]))]
         f, G, H = np.zeros(len(rows)), np.zeros((len(rows), n)), np.zeros((len(rows), n, n))
+        self.margin = []
         for r, row in enumerate(rows):
-            j = jet(case['node'], {'order': order, 'theta': case['theta'], 'fixed': case['fixed'], 'row': row})
+            env = {'order': order, 'theta': case['theta'], 'fixed': case['fixed'], 'row': row}
+            j = jet(case['node'], env)
             f[r], G[r], H[r] = j.v, j.g, j.h
+            self.margin.append(min(env.get('margins', [1e9])))
         if case['analytic'] is not None:
             fa, Ga, Ha = case['analytic'](case['theta'], case['data'], order)
             # the two independent oracles must agree with each other (else the harness itself is wrong)
@@ -682,6 +711,30 @@ class Checker:
                     self.fail('harness', case, a, b_, {'what': 'hand-derived closed form and jets disagree on ' + what})
             return fa, Ga, Ha
         return f, G, H
+
+    def square_of_curved_child(self, case, order):
+        """does the formula contain PowerConstant(child, 2) with a child whose Hessian is not zero? (tag only)"""
+        found = []
+
+        def walk(n):
+            if isinstance(n, tuple):
+                if n and n[0] == 'PowerConstant' and float(n[2]) == 2.0:
+                    found.append(n[1])
+                for c in n:
+                    walk(c)
+        walk(case['node'])
+        if not found or case['data'] is None and False:
+            return False
+        cols = list(case['data']) if case['data'] else []
+        row = {c: float(case['data'][c][0]) for c in cols}
+        for child in found:
+            try:
+                j = jet(child, {'order': order, 'theta': case['theta'], 'fixed': case['fixed'], 'row': row})
+                if np.any(j.h != 0.0):
+                    return True
+            except Exception:  # noqa
+                return True
+        return False
 
     def make(self, case, rng):
         """biogeme expression, betas dict for the call, database"""
@@ -713,6 +766,7 @@ class Checker:
         n = len(names)
         f, G, H = self.oracle(case, order)
         BH = np.array([np.outer(g, g) for g in G])
+        case['_square_of_curved_child'] = self.square_of_curved_child(case, order)
         e, given, db = self.make(case, rng)
         nodb = db is None
         kw = dict(betas=given, database=db, prepare_ids=True)
@@ -913,8 +967,8 @@ class Checker:
             return np.asarray(e.get_value_c(database=db, betas={nm: float(t[i]) for i, nm in enumerate(names)},
                                             prepare_ids=True), dtype=float)
 
-        def run():
-            hs = [2e-3 * max(1.0, abs(t)) for t in theta0]
+        def run(factor=1.0):
+            hs = [factor * 2e-3 * max(1.0, abs(t)) for t in theta0]
             f0 = F(theta0)
             g = np.zeros((len(f0), n))
             hd = np.zeros((len(f0), n, n))
@@ -923,7 +977,7 @@ class Checker:
                 ei[i] = hs[i]
                 fp1, fm1, fp2, fm2 = F(theta0 + ei), F(theta0 - ei), F(theta0 + 2 * ei), F(theta0 - 2 * ei)
                 g[:, i] = (8 * (fp1 - fm1) - (fp2 - fm2)) / (12 * hs[i])
-            hh = [2e-2 * max(1.0, abs(t)) for t in theta0]
+            hh = [factor * 2e-2 * max(1.0, abs(t)) for t in theta0]
             for i in range(n):
                 ei = np.zeros(n)
                 ei[i] = hh[i]
@@ -938,12 +992,30 @@ class Checker:
                                 - F(theta0 - s * ei + s * ej) + F(theta0 - s * ei - s * ej)) / (4 * s * s * hh[i] * hh[j])
                     hd[:, i, j] = hd[:, j, i] = (4 * cross(0.5) - cross(1.0)) / 3.0
             return g, hd
-        res = self.guarded('finite-differences', case, run)
+
+        def both():
+            # two step sizes: the finer result is the estimate, four times their difference its error bar
+            g1, h1 = run(1.0)
+            g2, h2 = run(0.5)
+            return g2, h2, 4 * np.abs(g1 - g2), 4 * np.abs(h1 - h2)
+        res = self.guarded('finite-differences', case, both)
         if res is None:
             return
-        g, hd = res
-        self.compare('finite-differences', case, r.gradients, g, tol=FDTOL, extra={'what': 'gradient per row'})
-        self.compare('finite-differences', case, r.hessians, hd, tol=50 * FDTOL, extra={'what': 'hessian per row'})
+        g, hd, gbar, hbar = res
+        # rows where a min/max is within reach of the difference steps of its kink are not comparable
+        keep = [i for i, mg in enumerate(self.margin) if mg > 0.5]
+        if not keep:
+            return
+        for got, est, bar, tol, what in ((np.asarray(r.gradients, dtype=float), g, gbar, FDTOL, 'gradient per row'),
+                                         (np.asarray(r.hessians, dtype=float), hd, hbar, 50 * FDTOL, 'hessian per row')):
+            self.cases += 1
+            if got.shape != est.shape:
+                self.fail('finite-differences', case, {'shape': list(est.shape)}, {'shape': list(got.shape)}, {'what': what})
+                continue
+            scale = max(1.0, float(np.max(np.abs(est[keep]))))
+            if np.any(np.abs(got[keep] - est[keep]) > tol * scale + bar[keep]):
+                self.fail('finite-differences', case, est[keep], got[keep],
+                          {'what': what, 'rows': keep, 'error_bar_of_the_differences': float(np.max(bar[keep]))})
 
 
 def case_list(tier, seed):
@@ -951,11 +1023,11 @@ def case_list(tier, seed):
     q = tier == 'quick'
     nrows = 5 if q else 9
     cases = []
-    cases += family_binary_logit(rng, 6 if q else 30, nrows + 3)
-    cases += family_mnl3(rng, 4 if q else 24, nrows + 3)
-    cases += family_closed_forms(rng, 14 if q else 70, nrows)
-    cases += family_operators(rng, 2 if q else 8, nrows)
-    cases += family_no_database(rng, 8 if q else 24)
+    cases += family_binary_logit(rng, 12 if q else 90, nrows + 3)
+    cases += family_mnl3(rng, 8 if q else 60, nrows + 3)
+    cases += family_closed_forms(rng, 28 if q else 210, nrows)
+    cases += family_operators(rng, 3 if q else 24, nrows)
+    cases += family_no_database(rng, 8 if q else 48)
     return cases
 
 
@@ -974,7 +1046,7 @@ def worker_main(spec):
                 timed_out = True
                 break
             try:
-                ck.run(pos, cases[pos], with_fd=(tier != 'quick' or pos % 2 == 0 or cases[pos]['tag'].startswith('operator')))
+                ck.run(pos, cases[pos], with_fd=True)
             except Poisoned:
                 resume = pos + 1
                 break
@@ -1036,8 +1108,7 @@ def main():
              'calculate_likelihood(_and_derivatives) scaled/unscaled with 1-3 threads; Richardson finite differences of '
              'the engine value (gradient 2e-6, Hessian 1e-4 relative) on %s; parameters given partly by initial value '
              'and partly by a betas dict; seed %d%s'
-             % (ncases, len(OPERATORS), 5 if q else 9, 8 if q else 12, 'half of the formulas and every operator formula'
-                if q else 'every formula', seed, '; TIME BUDGET HIT' if timed_out else ''))
+             % (ncases, len(OPERATORS), 5 if q else 9, 8 if q else 12, 'every formula', seed, '; TIME BUDGET HIT' if timed_out else ''))
     print(json.dumps({'cases': cases, 'bound': bound, 'failures': failures[:10]}))
     return 0 if nfail == 0 else 1
 
